@@ -234,7 +234,32 @@ def rule_poll(fx, rep):
         if not good:
             ok = False
             rep.violation("C09-POLL", "C09-POLL/iteration-gate", "an aspiration search is started without should_start_new_search(depth) being true", {"fn": idb.name, "file": idb.file, "line": t.get("line")})
-    rep.rule("C09-POLL", n, 4, ok, "stop polls before any move is made; depth 1 always started")
+    # a stop request / expired limit is observed at the poll: shared with C05-STOPFLAG (c)
+    import pC05
+    n += 1
+    ign = pC05.stop_ignored(fx)
+    rep.obligation(not ign)
+    for key, msg, site in ign:
+        ok = False
+        rep.violation("C09-POLL", "C09-POLL/" + key, msg + ": the polling points reached meanwhile do not observe a stop request, and the search goes on examining positions", site)
+    # ... and the polling functions cannot panic themselves (a panic at a polling point is the opposite of unwinding with a
+    # move): their panic sites are discharged as in C04-CONE (same interval arguments and class table)
+    import core
+    import pC04
+    sub = type(rep)(rep.prop, rep.tier)
+    q = core.QUIET
+    core.QUIET = True
+    try:
+        pC04.run_cone(fx, sub, "C09-POLL/panic", [fx.one("TimeStrategy::should_stop").name, ss.name], pC04.exempt_roots(fx), 0)
+    finally:
+        core.QUIET = q
+    for v in sub.violations:
+        ok = False
+        rep.violation("C09-POLL", v["key"], v["msg"] + " - at a polling point: the search thread dies there instead of unwinding with a move", v["site"])
+    n += sub.obligations
+    rep.obligations += sub.obligations
+    rep.discharged += sub.discharged
+    rep.rule("C09-POLL", n, 5, ok, "stop polls before any move is made, honour the flag and cannot panic; depth 1 always started")
 
 
 def rule_imm(fx, rep):
@@ -395,6 +420,8 @@ ID = "src/engine/search/iterative_deepening.rs"
 TC = "src/engine/search/time_control.rs"
 SM = "src/engine/search/mod.rs"
 MUTANTS = [
+    {"name": "poll margin subtracted from a fixed move time (seed C09-5b)", "expect": "C09-POLL/panic",
+     "edits": [("src/engine/search/time_control.rs", "            TimeControl::ExactTime(time) => self.elapsed() > time,", "            TimeControl::ExactTime(time) => self.elapsed() > time - Duration::from_millis(10),")]},
     {"name": "null move taken back only on a cut-off", "expect": "C09-PAIR/negamax/make_null_move",
      "edits": [(NG, "            game.undo_null_move();\n\n            if null_score >= beta {\n                return Ok(null_score);\n            }", "            if null_score >= beta {\n                game.undo_null_move();\n                return Ok(null_score);\n            }")]},
     {"name": "fallback move generated from the search's working copy (seed C09-2)", "expect": "C09-FALLBACK/panic-move-position",
